@@ -33,9 +33,20 @@ import (
 type c06tConn struct {
 	in     []byte
 	writes [][]byte
+	// slow is the number of Reads that return one octet only, with a
+	// scheduling point before each (a Read of a real connection blocks
+	// there): the length prefix arrives in pieces.
+	slow int
 }
 
 func (c *c06tConn) Read(p []byte) (int, error) {
+	if c.slow > 0 {
+		c.slow--
+		xsched.Yield("conn: waiting for the next segment")
+		if len(p) > 1 && len(c.in) > 0 {
+			p = p[:1]
+		}
+	}
 	if len(c.in) == 0 {
 		return 0, io.EOF
 	}
@@ -157,12 +168,90 @@ func c06tCheck(env *c06tEnv, x *xsched.Exec) []vrt.Finding {
 type c06tCase struct {
 	N       int   `json:"messages"`
 	Choices []int `json:"choices"`
+	// TwoConns selects the scenario of two connections to one server.
+	TwoConns bool `json:"two_connections,omitempty"`
+}
+
+// Two connections to ONE server object, one query each, the length prefixes
+// arriving octet by octet: the framing of a client's query must depend on its
+// own octets only, whatever the other connection's reader does in between.
+// One query is shorter than 256 octets, the other longer.
+type c06t2Env struct {
+	conns [2]*c06tConn
+	errs  []error
+}
+
+func c06t2Query(i int) *dns.Msg {
+	m := &dns.Msg{}
+	m.SetQuestion(fmt.Sprintf("conn-%d.example.", i), dns.TypeA)
+	m.Id = uint16(0x2100 + i)
+	if i == 1 {
+		m.SetEdns0(1232, false)
+		m.IsEdns0().Option = append(m.IsEdns0().Option, &dns.EDNS0_LOCAL{Code: 65001, Data: make([]byte, 300)})
+	}
+
+	return m
+}
+
+func c06t2Setup(s *xsched.Sched) *c06t2Env {
+	srv := NewServerDNS(ConfigDNS{ConfigBase: ConfigBase{Name: "verif", Addr: "127.0.0.1:0", Network: NetworkTCP, Handler: c06tHandler{}}})
+	srv.started = true
+	srv.workerPool.Release()
+	env := &c06t2Env{}
+	for i := range env.conns {
+		b, _ := c06t2Query(i).Pack()
+		c := &c06tConn{slow: 3}
+		c.in = binary.BigEndian.AppendUint16(c.in, uint16(len(b)))
+		c.in = append(c.in, b...)
+		env.conns[i] = c
+		s.Go(fmt.Sprintf("conn-loop-%d", i), func() {
+			wg := &xsync.WaitGroup{}
+			if err := srv.acceptTCPMsg(c, wg, &xsync.Mutex{}, time.Second, syncutil.EmptySemaphore{}); err != nil {
+				env.errs = append(env.errs, fmt.Errorf("connection %d: %w", i, err))
+			}
+			wg.Wait()
+		})
+	}
+
+	return env
+}
+
+func c06t2Check(env *c06t2Env, x *xsched.Exec) []vrt.Finding {
+	if x.Sched.Panicked != "" {
+		return vrt.F("tcp-two-conns/panic", "%s", x.Sched.Panicked)
+	}
+	if x.Sched.Deadlock || x.Sched.LimitHit {
+		return vrt.F("tcp-two-conns/deadlock", "blocked %v", x.Sched.Blocked)
+	}
+	if len(env.errs) > 0 {
+		return vrt.F("tcp-two-conns/message-not-accepted", "%v\nschedule:\n%s", env.errs, x.Sched.Describe())
+	}
+	for i, c := range env.conns {
+		var wire []byte
+		for _, w := range c.writes {
+			wire = append(wire, w...)
+		}
+		q := c06t2Query(i)
+		m := &dns.Msg{}
+		if len(wire) < 2 || len(wire) != 2+int(binary.BigEndian.Uint16(wire)) || m.Unpack(wire[2:]) != nil ||
+			m.Id != q.Id || len(m.Question) != 1 || m.Question[0].Name != q.Question[0].Name {
+			return vrt.F("tcp-two-conns/query-not-answered-from-its-own-bytes", "connection %d sent %s (id %#x) and received %x\nschedule:\n%s", i, q.Question[0].Name, q.Id, wire, x.Sched.Describe())
+		}
+	}
+
+	return nil
 }
 
 func TestVerifC06TCPRace(t *testing.T) {
 	r := vrt.Start("C06")
 	debug.SetGCPercent(-1)
 	var rc c06tCase
+	if r.ReplayCase("tcp-two-conns", &rc) {
+		var env *c06t2Env
+		x := xsched.Replay(rc.Choices, func(s *xsched.Sched) { env = c06t2Setup(s) })
+		r.Eval()
+		r.Report("tcp-two-conns", rc, c06t2Check(env, x))
+	}
 	if r.ReplayCase("tcp-race", &rc) {
 		var env *c06tEnv
 		x := xsched.Replay(rc.Choices, func(s *xsched.Sched) { env = c06tSetup(rc.N, s) })
@@ -211,6 +300,36 @@ func TestVerifC06TCPRace(t *testing.T) {
 				})
 			if st.Stopped {
 				r.Note("tcp race n=%d stopped by deadline after %d executions", n, st.Executions)
+			}
+		}
+	}
+	if r.ShouldRun() {
+		if shard, nshards := r.NShards(); 2%nshards == shard {
+			r.Bound("tcp_two_conns_preemptions", vrt.Pick(r, "2", "3"))
+			var env *c06t2Env
+			found, execs := 0, 0
+			st := xsched.Explore(xsched.Config{MaxPreemptions: vrt.Pick(r, 2, 3), MaxDeviations: 0, Stop: r.Expired},
+				func(s *xsched.Sched) {
+					if execs++; execs%2000 == 0 {
+						runtime.GC()
+					}
+					env = c06t2Setup(s)
+				},
+				func(x *xsched.Exec) bool {
+					r.Eval()
+					r.Trans(len(x.Sched.Trace))
+					fs := c06t2Check(env, x)
+					r.Class("tcp-two-conns")
+					r.State(fmt.Sprintf("tcp-two-conns %d %d", len(env.conns[0].writes), len(env.conns[1].writes)))
+					if len(fs) > 0 {
+						r.Report("tcp-two-conns", c06tCase{TwoConns: true, Choices: x.Choices}, fs)
+						found++
+					}
+
+					return found < 1
+				})
+			if st.Stopped {
+				r.Note("tcp two-connections scenario stopped by deadline after %d executions", st.Executions)
 			}
 		}
 	}
